@@ -13,6 +13,8 @@ import (
 var (
 	minInt64 = new(big.Int).Neg(pow2big(63))
 	maxInt64 = new(big.Int).Sub(pow2big(63), big.NewInt(1))
+	// no Go slice is longer than the largest possible allocation (2^48 bytes on amd64)
+	maxSliceLen = pow2big(48)
 )
 
 type SpecEnv struct {
@@ -189,10 +191,19 @@ func (s *Session) evalSpec(se *SpecEnv, e SExpr) Val {
 			vars[vn] = Val{Typ: typ, L: []T{{qsym(bn), sort}}}
 			binders = append(binders, fmt.Sprintf("(%s %s)", qsym(bn), sort))
 		}
-		body := s.evalBool(se.with(vars), x.Body)
+		inner := se.with(vars)
+		body := s.evalBool(inner, x.Body)
 		q := "forall"
 		if !x.Forall {
 			q = "exists"
+		}
+		if len(x.Pats) > 0 {
+			var ps []string
+			for _, pe := range x.Pats {
+				pv := s.materialize(s.evalSpec(inner, pe))
+				ps = append(ps, pv.L[0].S)
+			}
+			return boolVal(T{fmt.Sprintf("(%s (%s) (! %s :pattern (%s)))", q, strings.Join(binders, " "), body.S, strings.Join(ps, " ")), SBool})
 		}
 		return boolVal(T{fmt.Sprintf("(%s (%s) %s)", q, strings.Join(binders, " "), body.S), SBool})
 	}
